@@ -73,6 +73,8 @@ inductive PubKey
   | single (s : Scheme) (b : Bytes)
   /-- `BLS12381MultiPublicKey`: member keys in serialized order, bitmap, threshold -/
   | multi (keys : List Bytes) (bits : List Bool) (thr : Nat)
+  /-- non-empty bytes that `NewPublicKeyFromBytes` rejects -/
+  | garbage (b : Bytes)
   deriving DecidableEq, Repr
 
 /-- the guards of `NewMultiBLSFromPublicKey` (non-empty, threshold ≤ n, no duplicate member) plus the
@@ -80,6 +82,7 @@ bitmap length kyber's mask enforces -/
 def PubKey.wf : PubKey → Bool
   | .single _ _ => true
   | .multi ks bits thr => !ks.isEmpty && decide (thr ≤ ks.length) && decide ks.Nodup && bits.length == ks.length
+  | .garbage _ => false
 
 def PubKey.isEth : PubKey → Bool
   | .single .eth _ => true
@@ -192,6 +195,7 @@ def Env.addrOf (e : Env) : PubKey → Option Addr
   | .single .ed25519 b => some (shortHash b)
   | .single _ b => (e.addrs.find? (·.1 == b)).map (·.2)
   | .multi ks _ thr => some (shortHash ((sortBytes ks).flatten ++ be32 thr))
+  | .garbage _ => none
 
 /-- the encoding of the identity of G2 (0xc0 followed by 95 zero bytes) as a signature token -/
 def identitySig : String := "identity"
@@ -208,6 +212,7 @@ def Env.verifies (e : Env) (pk : PubKey) (c : Content) (sig : String) : Bool :=
   match pk with
   | .single _ b => e.signed.contains (b, c, sig)
   | .multi ks bits thr => e.aggregateValid ks bits c sig && (thr == 0 || decide ((enabled ks bits).length ≥ thr))
+  | .garbage _ => false
 
 /-- an aggregate exists only over signatures its members produced -/
 def Env.WF (e : Env) : Prop :=
@@ -452,6 +457,7 @@ def authenticates (e : Env) (tx : Tx) (pk : PubKey) : Except String Unit :=
 def PubKey.noSigner : PubKey → Bool
   | .single _ _ => false
   | .multi ks bits _ => (enabled ks bits).isEmpty
+  | .garbage _ => false
 
 /-- `CheckSignature`: (with the guard) refuse a multisig key naming no signer; authenticate; derive the
 address from the VERIFIED key; match it against the list -/
